@@ -555,6 +555,16 @@ func genHistory(t *rapid.T, spec *GenSpec) (*Program, int) {
 			iters = append(iters, nextID)
 			nextID++
 			p.Ops = append(p.Ops, o)
+			if chance(t, "seekback", 40) {
+				// walk forward, then seek back behind the current position (the
+				// iterator has to restart), optionally close it right away
+				p.Ops = append(p.Ops, Op{Kind: "iternext", ID: o.ID, N: rapid.IntRange(1, 3).Draw(t, "fw")},
+					Op{Kind: "iterseek", ID: o.ID, Key: []byte{}})
+				if chance(t, "closeafterseek", 50) {
+					p.Ops = append(p.Ops, Op{Kind: "closeiter", ID: o.ID})
+					iters = iters[:len(iters)-1]
+				}
+			}
 		case 9:
 			id := rapid.SampledFrom(iters).Draw(t, "iid")
 			switch pick(t, "istep", 50, 25, 25) {
